@@ -1,0 +1,38 @@
+//go:build verif
+
+package jd
+
+// Contracts for package jd (v2), read by the verifier in /verif (jdvc).
+// This file contains only comments: it cannot change the behaviour of the
+// package under any build tag. Syntax: see /verif/DESIGN.md section 5.
+
+//@ contract (jsonList).patch
+//@   requires validPath(pathAhead)
+//@   requires validNodes(l) && validNodes(before) && validNodes(removeValues) && validNodes(addValues) && validNodes(after)
+//@   consumes l
+//@   loop "for len(removeValues) > 0" invariant len(l) >= 0
+//@   carries C13
+
+//@ contract dispatch
+//@   ensures ret0 == specDispatch(n, options)
+//@   loop "range options" invariant specArrayKind(options) == specArrayKind(options[idx:])
+//@   carries C04 C05
+
+//@ contract JsonNode.Equals
+//@   requires validNode(self) && validNode(n)
+//@   ensures ret0 == specEq(self, n, options)
+//@   carries C04
+
+//@ contract (jsonList).Equals
+//@   loop "range l1" invariant specEqList(l1[:idx], l2[:idx], options)
+
+//@ contract getOption[precisionOption]
+//@   ensures ret1 == specHasPrecision(options)
+//@   ensures ret1 ==> ret0 != nil && (*ret0).precision == specPrecision(options)
+//@   ensures !ret1 ==> specPrecision(options) == 0.0
+//@   loop "range options" invariant specHasPrecision(options) == specHasPrecision(options[idx:])
+//@   loop "range options" invariant specPrecision(options) == specPrecision(options[idx:])
+//@   carries C04 C05
+
+//@ contract (jsonObject).Equals
+//@   loop "range o1" invariant forallKey(o1, o1, func(k string) bool { return !visited(k) || (mapHas(o2, k) && specEq(o1[k], o2[k], options)) })
